@@ -197,7 +197,7 @@ Theorem C01_agreement_through_recursive_definitions_partial :
   (forall a b, fin a -> fin b -> n_lt N a b = negb (n_le N b a)) ->
   (forall a b, fin a -> fin b -> n_eq N a b = n_eq N b a) ->
   forall (W : schema -> Prop) (rank : schema -> nat) (R : nat), guarded defs W rank R ->
-  (forall s, W s -> s_ref s = None -> local_clean0 fin allow_null OR s) ->
+  (forall s, W s -> s_ref s = None -> local_clean0 fin OR s) ->
   (* the one value-dependent condition - where a format sits next to a non-numeric type list, the value that level is applied
      to is one the list accepts (elsewhere the type.go:200 shortcut, a recorded finding) - as a relation closed under the visits
      of the validation *)
@@ -221,7 +221,7 @@ Theorem C01_recursive_fragment_decision_is_sound :
   (forall a b, finP fin_b a -> finP fin_b b -> n_lt N a b = negb (n_le N b a)) ->
   (forall a b, finP fin_b a -> finP fin_b b -> n_eq N a b = n_eq N b a) ->
   forall K R n root f1 f2 d,
-  cleang_b fin_b allow_null OR defs K R n root d = true -> jd (finP fin_b) allow_null allow_arr d ->
+  cleang_b fin_b OR defs K R n root d = true -> jd (finP fin_b) allow_null allow_arr d ->
   (goval_depth d * S R + urank defs K root < f1)%nat -> (goval_depth d * S R + urank defs K root < f2)%nat ->
   forall p q, exists r, sv_validate OR N opt defs f1 root p q d = Ok r /\ d4 OR N defs f2 root d = Some (r_valid r).
 Proof. exact decided_fragment_agrees. Qed.
@@ -239,7 +239,7 @@ Definition c01_tree_root : schema := set_ref (Some 60) empty_schema.
 Definition c01_tree_data : goval :=
   VObj 1 [(50, VFlt false 5); (51, VArr 2 [VObj 3 [(50, VFlt false 9)]; VObj 4 [(51, VArr 5 [])]])].
 Example C01_recursive_fragment_is_inhabited :
-  cleang_b (fun _ => true) false no_oracles c01_tree_defs 8 1 6 c01_tree_root c01_tree_data = true /\
+  cleang_b (fun _ => true) no_oracles c01_tree_defs 8 1 6 c01_tree_root c01_tree_data = true /\
   jd_b (fun _ => true) false true 6 c01_tree_data = true /\
   (goval_depth c01_tree_data * 2 + urank c01_tree_defs 8 c01_tree_root < 20)%nat /\
   (exists r, sv_validate no_oracles z_ops opt0 c01_tree_defs 20 c01_tree_root [SRoot 0] [SRoot 0] c01_tree_data = Ok r /\ r_valid r = false) /\
@@ -252,7 +252,7 @@ Qed.
 (* the instance the correspondence run executes *)
 Theorem C01_recursive_agreement_for_the_binary64_model : forall allow_null allow_arr OR opt defs K R n root f1 f2 fuel d,
   opt_array_must_have_items opt = false -> opt_obj_array_type_check opt = false ->
-  cleang_b f_finite allow_null OR defs K R n root d = true -> jd_b f_finite allow_null allow_arr fuel d = true ->
+  cleang_b f_finite OR defs K R n root d = true -> jd_b f_finite allow_null allow_arr fuel d = true ->
   (goval_depth d * S R + urank defs K root < f1)%nat -> (goval_depth d * S R + urank defs K root < f2)%nat ->
   forall p q, exists r, sv_validate OR flocq_ops opt defs f1 root p q d = Ok r /\ d4 OR flocq_ops defs f2 root d = Some (r_valid r).
 Proof.
